@@ -1316,7 +1316,9 @@ func dstOfRoute(c *cmd) routeDst {
 		// ASA: ipv6 route intf ip/len gw
 		// IOS: ipv6 route [vrf NAME] ip/len gw
 		i := slices.IndexFunc(l, func(e string) bool { return strings.Contains(e, "/") })
-		ipp, _ = netip.ParsePrefix(l[i])
+		if i != -1 {
+			ipp, _ = netip.ParsePrefix(l[i])
+		}
 		if len(l) >= 6 && l[2] == "vrf" {
 			vrf = l[3]
 		}
@@ -1324,15 +1326,18 @@ func dstOfRoute(c *cmd) routeDst {
 		// ASA: route intf ip mask gw
 		// IOS: ip route [vrf NAME] ip mask gw
 		i := 2
-		if l[0] == "ip" && l[2] == "vrf" {
+		if l[0] == "ip" && len(l) > 3 && l[2] == "vrf" {
 			vrf = l[3]
 			i = 4
 		}
-		ip, err1 := netip.ParseAddr(l[i])
-		mask, err2 := netip.ParseAddr(l[i+1])
-		if err1 == nil && err2 == nil {
-			size, _ := net.IPMask(mask.AsSlice()).Size()
-			ipp = netip.PrefixFrom(ip, size)
+		// Incomplete command has invalid destination.
+		if len(l) > i+1 {
+			ip, err1 := netip.ParseAddr(l[i])
+			mask, err2 := netip.ParseAddr(l[i+1])
+			if err1 == nil && err2 == nil {
+				size, _ := net.IPMask(mask.AsSlice()).Size()
+				ipp = netip.PrefixFrom(ip, size)
+			}
 		}
 	}
 	return routeDst{vrf, ipp}
@@ -1576,7 +1581,7 @@ func (s *State) alignVRFs() {
 	}
 	routeVRF := func(c *cmd) string {
 		tokens := strings.Fields(c.parsed)
-		if tokens[2] == "vrf" {
+		if len(tokens) > 3 && tokens[2] == "vrf" {
 			return tokens[3]
 		}
 		return ""
